@@ -61,7 +61,7 @@ class Schema:
     def __init__(s, name, rules, root, ops, n=3, alphabet='x', props=(), extract='', support='', post='', types='',
                  nonzero=(), cmp_err=True, cmp_fields=True, custom_ws=None, nchk=0, user_ctx=None, derives=None,
                  tracer=False, allow_sentinel=False, via_public=False, extern_str='', isolated=False, expect='ok', raw_ebnf=None, note='', kani=True, twin_of=None, root_call=None,
-                 aux_of=None, aux_kind=None, inline_includes=False):
+                 aux_of=None, aux_kind=None, inline_includes=False, deep=None):
         s.__dict__.update(locals()); del s.__dict__['s']
 
 # ------------------------------------------------------------------------------------------------ grammar text
@@ -385,6 +385,7 @@ pub mod %(name)s {
         o
     }
 
+%(real_str)s
     // ---- reference semantics, generated from the schema's expression tree ----
 %(oracle)s
 
@@ -406,7 +407,20 @@ pub mod %(name)s {
            support=schema.support, nonzero=nonzero, unused=unused, ctx_new=ctx_new, tracer=tracer, ctx_ty=ctx_ty,
            ctx_val=ctx_val, root=schema.root, extract=schema.extract, oracle=oracle, root_call=root_call, ok_bind=ok_bind,
            custom_ws=('cx.custom_ws = Some(b\'%s\');' % schema.custom_ws) if schema.custom_ws else '',
-           post=schema.post)
+           post=schema.post,
+           real_str=('''    /// the REAL generated parser on an arbitrary text (deep-input family; the schema has no abstract operands)
+    pub fn real_str(input: &str) -> Obs {
+        install(&Tables::zero());
+        let st = ParseState::new(input, &ParseSettings::default());
+        let mut g = ParseGlobal::<NoopTracer, peginator_generated::ParseCache, ()>::new(Default::default(), ());
+        let mut o = Obs::new();
+        match peginator_generated::parse_%s(st, &mut g) {
+            Ok(ok) => { o.ok = true; o.end = ok.state.cache_key(); }
+            Err(e) => { o.err = e.position; }
+        }
+        o
+    }
+''' % schema.root) if schema.deep else '')
 
 # ------------------------------------------------------------------------------------------------ extraction helpers
 def one(i, expr):   return '                o.f[%d].push(%s);' % (i, expr)
